@@ -138,6 +138,7 @@ func (c *VirtualTable) Open() (sqlite.VirtualCursor, error) {
 	return &Cursor{
 		common: common,
 		ctx:    c.module.sc.ctx,
+		keyCol: c.common.KeyCol,
 	}, nil
 }
 
@@ -160,6 +161,7 @@ func (c *VirtualTable) Destroy() error {
 type Cursor struct {
 	common *s3db.Cursor
 	ctx    context.Context
+	keyCol int
 }
 
 func (c *Cursor) Next() error {
@@ -167,9 +169,11 @@ func (c *Cursor) Next() error {
 }
 
 func (c *Cursor) Column(ctx *sqlite.VirtualTableContext, i int) error {
-	if ctx.NoChange() {
+	if ctx.NoChange() && i != c.keyCol {
 		// UPDATE does not assign this column: leave it flagged no-change
-		// so that only the assigned columns get the statement's write time
+		// so that only the assigned columns get the statement's write time.
+		// The key is always returned: the old and new key are compared to
+		// tell an UPDATE from a key change.
 		return nil
 	}
 	v, err := c.common.Column(i)
